@@ -55,7 +55,7 @@ def gen(tier, seed):
             cm += [("assembly", ("addr", orig)), ("assembly", ("addr", orig + 1)), ("breaklist",), ("exit",)]
             specs.append(("later-in-session", 0, src, [], cm))
     import asmgen
-    n = 250 if tier == "quick" else 8000
+    n = 250 if tier == "quick" else 30000
     for i in range(n):
         items = asmgen.gen_program(rnd, stack=False, nstmts=rnd.choice([1, 2, 4, 7]))
         # keep only label names the debugger reads as labels
